@@ -169,7 +169,7 @@ func generate(r *lib.Run) {
 	}
 	// malformed
 	for _, l := range []string{"", "sc", "sc x d 61", "sc u q 61", "sc u d 6", "fl c 7", "fl u 4", "fl z 1", "fl c x", "sp 1 2 3", "ex c 1 1 zz -",
-		"sp 10 5 01:5:0 - - 02 0", "sp 10 5 01:5:0 - 02 0", "lay u 1 1 0 bad", "lay u 1 1 2 p,t,61,d,1,1,0,0,61", "lay u 1 1 0 p,t,61,d,1,1,0,6,61"} {
+		"sp 10 5 01:5:0 - - - 02 0", "sp 10 5 01:5:0 - - 02 0", "lay u 1 1 0 bad", "lay u 1 1 2 p,t,61,d,1,1,0,0,61", "lay u 1 1 0 p,t,61,d,1,1,0,6,61"} {
 		runOp(r, l)
 	}
 }
